@@ -45,7 +45,15 @@ def file_of(lst, tag, spell=None):
 
 def build_object(s, slot, lst, tag, how, ctor, spell=None):
     """how: 'parse' | 'set'; ctor for 'set' (and for empty lists): 'key' | 'ini' | 'opt'"""
-    if how == "parse" and lst:
+    if how in ("dirs", "hist") and lst:
+        # the object a directory read hands to the caller: the result of econf_readDirs (one file, or a main file and a
+        # drop-in that adds nothing), or a member of the history
+        d = b"/d" + str(slot).encode()
+        s.file(d + b"/usr/cfg.conf", file_of(lst, tag, spell))
+        if how == "dirs" and len(lst) % 2 == 0:
+            s.file(d + b"/etc/cfg.conf.d/z.conf", b"# nothing\n")
+        s.add("RD" if how == "dirs" else "RH", slot, h(d + b"/usr"), h(d + b"/etc"), h(b"cfg"), h(b"conf"), h(b"="), h(b"#"))
+    elif how == "parse" and lst:
         path = b"/m" + str(slot).encode() + b".conf"
         s.file(path, file_of(lst, tag, spell))
         s.add("RF", slot, h(path), h(b"="), h(b"#"))
